@@ -103,7 +103,11 @@ where
                 }
                 self.region().truncate_write(from, &bytes)?;
             }
+            #[cfg(feature = "verif")]
+            rawdb::verif_sync::yield_point("raw-write:before-publish-len");
             self.base.update_stored_len(stored_len + pushed_len);
+            #[cfg(feature = "verif")]
+            rawdb::verif_sync::yield_point("raw-write:after-publish-len");
         } else if truncated {
             self.region().truncate(from)?;
         }
